@@ -7,8 +7,9 @@ its functions.  The reference model decides what the nested program must print, 
 what nesting preserves; the point is that every feature generator's programs now also run with their frames,
 handlers, captured variables and loop state sitting on top of (and inside) the machinery of other features.
 
-Known-finding avoid tags are respected: nothing is ever placed inside a finally block, and no context adds a
-`return`, `break` or `continue` that would leave a try block."""
+Known-finding avoid tags are respected: a body is placed inside a finally block only where no exception passes
+through that block (reached by falling out of the try block, or with the function's return waiting), and no context
+adds a `return`, `break` or `continue` that would leave a try block without a finally."""
 import re
 
 PRELUDE_RE = re.compile(r"^(fn t\(k, v\) \{ print\(k\); return v; \}\n)?(fn show_set.*\n)?(fn show_map.*\n)?")
@@ -148,9 +149,28 @@ def c_module_fn(b, u, r, mods):
     return ["import \"ctxf%d\" as cm%d;" % (u, u), "print(cm%d.run());" % u, "print(cm%d.ctx_calls);" % u]
 
 
+def c_finally_plain(b, u, r, mods):
+    # a finally block reached by falling out of its try block: no exception passes through it, nothing is pending
+    return ["try {", "    print(\"ctx-try\");", "} finally {"] + _ind(b) + ["}"]
+
+
+def c_finally_after_return(b, u, r, mods):
+    # a finally block that runs while the function's return value waits for it; the body runs in a function called from
+    # there (a try / finally written directly in such a block is the known finding K-exc-finally-nested-pending-return)
+    return ["fn ctxfr%d() {" % u, "    fn ctxbody%d() {" % u] + _ind(b, 2) + ["    }", "    try {", "        return \"ctx-returned %d\";" % u, "    } finally {",
+            "        ctxbody%d();" % u, "        print(\"ctx-finally-rest\");", "    }", "    return \"ctx-fell-through\";", "}", "print(ctxfr%d());" % u]
+
+
+def c_finally_in_method(b, u, r, mods):
+    return ["#[constructor(new)]", "class CtxFin%d {" % u, "    fn body(self) {"] + _ind(b, 2) + ["    }", "    fn run(self, a) {", "        try {",
+            "            if a { return [\"ctx-method-returned\", a]; }", "        } finally {", "            self.body();", "            print(\"ctx-finally-rest\");",
+            "        }", "        return \"ctx-method-end\";", "    }", "}", "print(CtxFin%d.new().run(%s));" % (u, r.choice(["true", "false", "7"]))]
+
+
 CONTEXTS = [c_block, c_if, c_fn, c_fn_args, c_lambda, c_fiber, c_fiber_yield, c_fiber_in_try, c_method, c_ctor, c_static, c_super,
             c_boundfield, c_try, c_try_finally, c_try_catch_finally, c_catch, c_catch_builtin, c_for_vec, c_for_range, c_for_adapter,
-            c_for_useriter, c_while, c_map_callback, c_reduce_callback, c_module_top, c_module_fn]
+            c_for_useriter, c_while, c_map_callback, c_reduce_callback, c_module_top, c_module_fn,
+            c_finally_plain, c_finally_after_return, c_finally_in_method]
 # contexts whose body becomes a module: everything the body needs must travel with it, so they may only be applied
 # to the whole program (prelude included) and only as the innermost context
 MODULE_CTX = (c_module_top, c_module_fn)
@@ -161,7 +181,7 @@ GROUPS = {
     "C05": [c_block, c_if, c_while],
     "C06": [c_fn, c_fn_args, c_lambda, c_block],
     "C07": [c_method, c_ctor, c_static, c_super, c_boundfield],
-    "C08": [c_try, c_try_finally, c_try_catch_finally, c_catch, c_catch_builtin],
+    "C08": [c_try, c_try_finally, c_try_catch_finally, c_catch, c_catch_builtin, c_finally_plain, c_finally_after_return, c_finally_in_method],
     "C09": [c_fiber, c_fiber_yield, c_fiber_in_try],
     "C14": [c_module_top, c_module_fn],
     "C18": [c_for_vec, c_for_range, c_for_adapter, c_for_useriter, c_map_callback, c_reduce_callback],
